@@ -1203,6 +1203,14 @@ fn gen_bitprog(r: &mut Rng) -> String {
     ];
     let mut s = String::new();
     s.push_str(*r.pick(SRC));
+    if r.chance(12) {
+        // a `magic` that does not match, tried after some reads (so that the mismatch is reported at a position that is
+        // not the start of the input), possibly inside a slice of the input: the error and its rendering
+        for _ in 0..r.below(4) { s.push(' '); s.push_str(*r.pick(&["u8 drop", "3 bits drop", "u16 drop", "1 bytes open-bitstr"])); }
+        s.push(' ');
+        s.push_str(*r.pick(&["|03| magic", "|ffff| magic", "|x.| magic", "|00 61 63| magic", "|0a0b0c0d0e| magic"]));
+        return s;
+    }
     for _ in 0..1 + r.below(14) {
         s.push(' ');
         if r.chance(12) {
